@@ -59,7 +59,7 @@ func checkC09(w *World, r *Report) {
 	guardRule(w, r, e, "C09.guard", guardTable[0])
 	fns := w.pkgFuncs("lib/concurrent")
 	n := pairRule(w, r, e, "C09.pair", fns)
-	r.floor("C09.pair", "lock acquisitions and releases in lib/concurrent", n, 8)
+	r.floor("C09.pair", "lock acquisitions and releases in lib/concurrent", n, 6)
 	r.floor("C09.guard", "accesses to Atom.Val/version", r.count("C09.guard"), 8)
 
 	// callback under lock
@@ -421,6 +421,13 @@ func checkC10(w *World, r *Report) {
 	ctxArg := applies[0].Call.Args[0]
 	derived := false
 	var cancelFnVal ssa.Value
+	if p, ok := ctxArg.(*ssa.Parameter); ok && p.Parent() == body {
+		for i, q := range body.Params {
+			if q == p && i < len(gos[0].Call.Args) {
+				ctxArg = gos[0].Call.Args[i]
+			}
+		}
+	}
 	if withs, ok := ctxDerivation(e, ctxArg, map[ssa.Value]bool{}); ok && len(withs) > 0 {
 		derived = true
 		cancelFnVal = extractOf(withs[len(withs)-1], 1)
@@ -676,9 +683,9 @@ func checkC11(w *World, r *Report) {
 	r.rule("C11.order", "while a scope lock is held the only other scope methods called are on the receiver itself or on its outer scope (child-then-parent order), and no call that can reach the evaluator is made")
 	r.rule("C11.globals", "the only package-level variables written from the evaluator closure are the stepping flags, and every such write is control-dependent on Stepper != nil or on a stepping flag")
 	guardRule(w, r, e, "C11.data", guardTable[2])
-	r.floor("C11.data", "accesses to Env.data and calls of lock-required methods", r.count("C11.data"), 14)
+	r.floor("C11.data", "accesses to Env.data and calls of lock-required methods", r.count("C11.data"), 10)
 	n := pairRule(w, r, e, "C11.pair", w.pkgFuncs("env"))
-	r.floor("C11.pair", "lock acquisitions/releases in package env", n, 12)
+	r.floor("C11.pair", "lock acquisitions/releases in package env", n, 8)
 
 	// order + no evaluator under scope lock
 	no := 0
@@ -713,7 +720,6 @@ func checkC11(w *World, r *Report) {
 	// globals
 	a := newAudit(w, e, r, "C11.globals")
 	a.computeClosure(evalEntries(w), func(f *ssa.Function) bool { return fnPkgPath(f) == modPath+"/reader" })
-	flags := map[*ssa.Global]bool{}
 	type gstore struct {
 		fn *ssa.Function
 		st *ssa.Store
@@ -726,78 +732,20 @@ func checkC11(w *World, r *Report) {
 				if st, ok := in.(*ssa.Store); ok {
 					if g, ok := st.Addr.(*ssa.Global); ok && strings.HasPrefix(g.Pkg.Pkg.Path(), modPath) {
 						stores = append(stores, gstore{fn, st, g})
-						flags[g] = true
 					}
 				}
 			}
 		}
 	}
-	stepper := w.SPkg[modPath].Members["Stepper"]
-	guardedBy := func(fn *ssa.Function, b *ssa.BasicBlock, flagsOK map[*ssa.Global]bool) bool {
-		for _, f := range e.holding(b).list() {
-			if f.Kind == "nonnil" && f.K.Root == nil && stepper != nil && f.K.Glob == stepper.Name() && f.K.Path == "" {
-				return true
-			}
-		}
-		// dominated by the true edge of a load of a stepping flag
-		for d := b.Idom(); d != nil; d = d.Idom() {
-			if len(d.Instrs) == 0 {
-				continue
-			}
-			iff, ok := d.Instrs[len(d.Instrs)-1].(*ssa.If)
-			if !ok {
-				continue
-			}
-			if ld, ok := iff.Cond.(*ssa.UnOp); ok && ld.Op == token.MUL {
-				if g, ok := ld.X.(*ssa.Global); ok && flagsOK[g] && edgeDominates(d, 0, b) {
-					return true
-				}
-			}
-		}
-		return false
-	}
-	var closureGuarded func(fn *ssa.Function, flagsOK map[*ssa.Global]bool) bool
-	closureGuarded = func(fn *ssa.Function, flagsOK map[*ssa.Global]bool) bool {
-		parent := fn.Parent()
-		if parent == nil {
-			return false
-		}
-		for _, b := range parent.Blocks {
-			for _, in := range b.Instrs {
-				if mc, ok := in.(*ssa.MakeClosure); ok && mc.Fn == ssa.Value(fn) {
-					return guardedBy(parent, b, flagsOK) || closureGuarded(parent, flagsOK)
-				}
-				// a literal without captured variables is referenced directly
-				if ci, ok := in.(ssa.CallInstruction); ok && ci.Common().StaticCallee() == fn {
-					return guardedBy(parent, b, flagsOK) || closureGuarded(parent, flagsOK)
-				}
-			}
-		}
-		return false
-	}
-	// fixpoint: a flag is a stepping flag when all its stores are guarded
-	flagsOK := map[*ssa.Global]bool{}
-	for g := range flags {
-		flagsOK[g] = true
-	}
-	for changed := true; changed; {
-		changed = false
-		for _, s := range stores {
-			if !flagsOK[s.g] {
-				continue
-			}
-			if !(guardedBy(s.fn, s.st.Block(), flagsOK) || closureGuarded(s.fn, flagsOK)) {
-				// try without trusting this very flag
-				delete(flagsOK, s.g)
-				changed = true
-			}
-		}
+	mm := newEvalModel(w, e)
+	if !mm.ok {
+		r.undecided("C11.globals", nil, "evaluator model", token.NoPos, mm.why)
 	}
 	for _, s := range stores {
-		ok := flagsOK[s.g]
-		r.check(ok, "C11.globals", s.fn, "write "+s.g.Name(), s.st.Pos(), "control-dependent on Stepper != nil (or on a stepping flag that is)", "package-level variable written from the evaluator without a stepper being installed: shared between concurrent evaluations")
+		ok := mm.ok && mm.stepBlocks[s.st.Block()]
+		r.check(ok, "C11.globals", s.fn, "write "+s.g.Name(), s.st.Pos(), "control-dependent on Stepper != nil (or on a stepping flag that is), directly or through a helper only called from such code", "package-level variable written from the evaluator without a stepper being installed: shared between concurrent evaluations")
 	}
-	r.floor("C11.globals", "writes to package-level variables in the evaluator closure", len(stores), 10)
+	r.floor("C11.globals", "writes to package-level variables in the evaluator closure", len(stores), 6)
 	r.rule("C11.local", "local bindings of one evaluation are invisible to others: let variables, parameters and catch variables are written only into scopes created in the same region (fresh children), and the evaluator writes bindings into a non-fresh (possibly shared) scope only for def and defmacro (scope rules shared with C01.scope)")
 	if m := newEvalModel(w, e); m.ok {
 		ruleScope(m, r, "C11.local")
